@@ -364,6 +364,63 @@ pub fn run_suite(ctx: &mut Ctx) {
     }
 }
 
+/// Scaled systems (MCAnalyses.tla, invariant Homogeneous): a small sporadic task set (validated equationally by TLC
+/// like every other rta event) and the same set with every period, jitter, cost, deadline, the blocking bound and the
+/// limit multiplied by K = 2^33..2^50.  For the homogeneous analyses the bound of the large system must be K times
+/// the bound of the small one (decided by Apalache over unbounded integers).
+fn scale_call(inp: &Value) -> Value {
+    json!({"small": call_rta(&inp["small"]), "big": call_rta(&inp["big"])})
+}
+
+pub fn run_scale(ctx: &mut Ctx) {
+    let n = if ctx.thorough { 1500 } else { 160 };
+    let policies = ["fp_p", "fp_np", "fp_fnp", "edf_p", "fifo"];
+    for i in 0..n {
+        let policy = policies[i % policies.len()];
+        let nt = ctx.rng.gen_range(1..=2usize);
+        // periods grow with the number of tasks so that most systems are not overloaded (a quarter may be)
+        let tmin = if i % 4 == 0 { 2 } else { 3 * (nt as u64 + 1) };
+        let mk = |rng: &mut rand::rngs::StdRng| {
+            let t = rng.gen_range(tmin..=tmin + 8);
+            let j = if rng.gen_bool(0.5) { 0 } else { rng.gen_range(0..=t + 2) };
+            let c = rng.gen_range(1..=3u64);
+            (t, j, c, rng.gen_range(1..=12u64))
+        };
+        let ps: Vec<(u64, u64, u64, u64)> = (0..=nt).map(|_| mk(&mut ctx.rng)).collect();
+        let b = if policy == "fp_p" || policy == "edf_p" || policy == "fifo" { 0 } else { ctx.rng.gen_range(0..=3u64) };
+        let lim = ctx.rng.gen_range(12..=40u64);
+        let k = 1u64 << ctx.rng.gen_range(33..=50);
+        let task = |p: &(u64, u64, u64, u64), f: u64| {
+            json!({"a": {"k": "sporadic", "T": p.0 * f, "J": p.1 * f}, "c": {"k": "scalar", "c": p.2 * f}, "C": p.2 * f,
+                   "D": p.3 * f, "seg": p.2 * f, "last": 1})
+        };
+        let build = |f: u64| {
+            let tua = task(&ps[0], f);
+            let others: Vec<Value> = ps[1..].iter().map(|p| task(p, f)).collect();
+            let mut inp = json!({"policy": policy, "lim": lim * f, "tua": tua, "others": others, "B": b * f});
+            if policy == "fifo" {
+                let mut all = others.clone();
+                all.push(inp["tua"].clone());
+                inp["others"] = json!(all);
+                inp["tua"] = json!({"C": 0});
+                inp["container"] = json!("agg");
+            }
+            inp
+        };
+        // the small system as an ordinary rta event (with its recorded tables) ...
+        let small = build(1);
+        let tua = small["tua"].clone();
+        let others: Vec<Value> = small["others"].as_array().unwrap().clone();
+        if policy == "fifo" {
+            emit_rta(ctx, policy, &others[others.len() - 1], &others, 0, lim, 8);
+        } else {
+            emit_rta(ctx, policy, &tua, &others, b, lim, 8);
+        }
+        // ... and the pair (small, K times larger)
+        ctx.call("scale", json!({"policy": policy, "K": k, "small": small, "big": build(k)}), scale_call);
+    }
+}
+
 pub fn run_rta(ctx: &mut Ctx) {
     let only: Option<Vec<String>> = ctx.arg("--policies").map(|p| p.split(',').map(|x| x.to_string()).collect());
     let wanted = |p: &str| only.as_ref().map(|o| o.iter().any(|x| x == p)).unwrap_or(true);
